@@ -37,6 +37,13 @@ instance : Neg QR := ⟨fun x => ⟨-x.a, -x.b⟩⟩
 instance : Mul QR := ⟨fun x y => ⟨x.a * y.a + x.b * y.b / 2, x.a * y.b + x.b * y.a⟩⟩
 end QR
 
+/-- `0 ≤ a + b·r` decided exactly (r = 1/√2 > 0, r² = 1/2) -/
+def QR.nonneg (x : QR) : Bool :=
+  if 0 ≤ x.a && 0 ≤ x.b then true
+  else if x.a ≤ 0 && x.b ≤ 0 then x.a == 0 && x.b == 0
+  else if 0 ≤ x.a then decide (x.b * x.b / 2 ≤ x.a * x.a)      -- a ≥ 0 > b :  a ≥ |b| r
+  else decide (x.a * x.a ≤ x.b * x.b / 2)                       -- b > 0 > a :  b r ≥ |a|
+
 /-- `re + im·i` with `re, im ∈ ℚ(r)` -/
 structure Q4 where
   re : QR
@@ -52,6 +59,9 @@ instance : Neg Q4 := ⟨fun z => ⟨-z.re, -z.im⟩⟩
 instance : Mul Q4 := ⟨fun z w => ⟨z.re * w.re - z.im * w.im, z.re * w.im + z.im * w.re⟩⟩
 /-- complex conjugate -/
 def conj (z : Q4) : Q4 := ⟨z.re, -z.im⟩
+/-- `|z| ≤ t` for a rational `t ≥ 0`, decided exactly as `t² − |z|² ≥ 0` in ℚ(r) -/
+def absLe (z : Q4) (t : Rat) : Bool :=
+  decide (0 ≤ t) && QR.nonneg ((⟨t * t, 0⟩ : QR) - (z.re * z.re + z.im * z.im))
 /-- `(a + b r) + (c + d r) i` -/
 def mk4 (a b c d : Rat) : Q4 := ⟨⟨a, b⟩, ⟨c, d⟩⟩
 /-- integer components -/
@@ -162,9 +172,20 @@ def dotFrom (x : Nat → K) : Nat → List K → K
 /-- `_substitute_coordinates(coords, matrix)`: `out[i] = Σ_j matrix[i,j]·coords[j]` -/
 def applyMat (C : List (List K)) (x : Nat → K) : Nat → K := fun i => dotFrom x 0 (C.getD i [])
 
-/-! normal form of a term list (for printing only) -/
+/-- `_polynomial_clean(p, tol)`: coefficients that are `small` (|c| ≤ tol) become 0, all others are kept -/
+def cleanTerms (small : K → Bool) : Poly K → Poly K
+  | [] => []
+  | (c, k) :: p => ((if small c then 0 else c), k) :: cleanTerms small p
 
-def trimMono (k : Mono) : Mono := (k.reverse.dropWhile (· = 0)).reverse
+/-! normal form of a term list: like terms merged (this is what the dense coefficient arrays of the code hold) -/
+
+/-- drop trailing zero exponents -/
+def trimMono : Mono → Mono
+  | [] => []
+  | e :: es =>
+    match trimMono es with
+    | [] => if e = 0 then [] else [e]
+    | t :: ts => e :: t :: ts
 
 def insertTerm (c : K) (k : Mono) : Poly K → Poly K
   | [] => [(c, k)]
@@ -172,6 +193,12 @@ def insertTerm (c : K) (k : Mono) : Poly K → Poly K
 
 def normalize (p : Poly K) : Poly K :=
   (p.foldl (fun acc t => insertTerm t.1 (trimMono t.2) acc) []).filter fun t => t.1 ≠ 0
+
+/-- a linear conversion as the wrappers perform it: substitute, (dense arrays = merged like terms), clean.
+`_substitute_linear` cleans with its own default 1e-14 before the wrapper cleans with `tol`; two successive cleans are
+one clean with the larger tolerance, which is what `small` stands for. -/
+def convertLin (small : K → Bool) (C : List (List K)) (p : Poly K) : Poly K :=
+  cleanTerms small (normalize (substLinear C p))
 
 end
 
